@@ -4745,7 +4745,9 @@ class DuckDBGenerator(generator.Generator):
 
         expression.set("this", arg)
 
-        result_sql = f"~{self.sql(expression, 'this')}"
+        this_sql = self.sql(expression, "this")
+        sep = " " if this_sql[:1] == "~" else ""
+        result_sql = f"~{sep}{this_sql}"
 
         return _gen_with_cast_to_blob(self, expression, result_sql)
 
